@@ -203,3 +203,95 @@ fn run_budgeted(mgr: &mut SddManager, t: &(Lit, BoolOp, Lit, Option<(BoolOp, Lit
         }
     }
 }
+
+// ---- weighted model count and gradient follow the manager's CURRENT weights -------------------------------
+/// truth-table sum with the weights the manager reports now
+fn table_wmc_now(mgr: &SddManager, t: u8) -> f64 {
+    let mut total = 0.0;
+    for a in 0..(1u32 << N) {
+        if (t >> a) & 1 == 1 {
+            let mut w = 1.0;
+            for v in 0..N { w *= if (a >> v) & 1 == 1 { mgr.pos_weight()[v as usize] } else { mgr.neg_weight()[v as usize] }; }
+            total += w;
+        }
+    }
+    total
+}
+/// d/dp_v of the truth-table sum for an independent variable: sum(v true) - sum(v false) over the other variables' weights
+fn table_gradient_now(mgr: &SddManager, t: u8, var: u32) -> f64 {
+    let mut total = 0.0;
+    for a in 0..(1u32 << N) {
+        if (t >> a) & 1 == 1 {
+            let mut w = 1.0;
+            for v in 0..N { if v != var { w *= if (a >> v) & 1 == 1 { mgr.pos_weight()[v as usize] } else { mgr.neg_weight()[v as usize] }; } }
+            total += if (a >> var) & 1 == 1 { w } else { -w };
+        }
+    }
+    total
+}
+fn family(mgr: &mut SddManager) -> Vec<(SddId, u8, String)> {
+    let ls = lits();
+    let mut out = Vec::new();
+    for &a in &ls { for &b in &ls { for op in [BoolOp::And, BoolOp::Or] {
+        let (ia, ib) = (mgr.literal(a.0, a.1), mgr.literal(b.0, b.1));
+        let r = mgr.apply(ia, ib, op);
+        for &c in &ls {
+            let ic = mgr.literal(c.0, c.1);
+            let r2 = mgr.apply(r, ic, BoolOp::Or);
+            out.push((r2, op_table(BoolOp::Or, op_table(op, lit_table(a), lit_table(b)), lit_table(c)), format!("(({:?} {:?} {:?}) Or {:?})", a, op, b, c)));
+        }
+        out.push((r, op_table(op, lit_table(a), lit_table(b)), format!("({:?} {:?} {:?})", a, op, b)));
+    }}}
+    out
+}
+fn check_counts(mgr: &mut SddManager, fam: &[(SddId, u8, String)], ctx: &str) {
+    for (id, t, name) in fam {
+        let want = table_wmc_now(mgr, *t);
+        let got = mgr.wmc(*id);
+        assert!((got - want).abs() < 1e-9, "{}: weighted model count of {} is {}, the truth-table sum under the manager's current weights (pos {:?}, neg {:?}) is {}", ctx, name, got, mgr.pos_weight(), mgr.neg_weight(), want);
+    }
+}
+
+#[test] fn w__sdd__wmc_follows_the_current_weights() {
+    for order in orders() {
+        let mut mgr = fresh(order);
+        let fam = family(&mut mgr);
+        check_counts(&mut mgr, &fam, &format!("order {:?}, initial weights", order));
+        // every public route that changes a weight, for every variable, counts taken before and after
+        for var in 0..N {
+            mgr.ensure_variable(var, 0.05 + 0.1 * var as f64);
+            check_counts(&mut mgr, &fam, &format!("order {:?}, after ensure_variable({}, ..) re-registered the variable with another probability", order, var));
+            // (weights stay normalised, pos + neg = 1: for other weightings the count of a diagram that skips a variable
+            //  is by design not the truth-table sum - the manager does not smooth)
+            mgr.ensure_variable_weights(var, 0.4, 0.6, shared::sdd::VarKind::Independent);
+            check_counts(&mut mgr, &fam, &format!("order {:?}, after ensure_variable_weights({}, 0.4, 0.6, Independent)", order, var));
+            mgr.set_pos_weight(var, 0.25);
+            mgr.set_neg_weight(var, 0.75);
+            check_counts(&mut mgr, &fam, &format!("order {:?}, after set_pos_weight({}, 0.25) and set_neg_weight({}, 0.75)", order, var, var));
+            // a fresh diagram built after the change agrees too
+            let l = mgr.literal(var, true);
+            let got = mgr.wmc(l);
+            assert!((got - 0.25).abs() < 1e-9, "order {:?}: wmc of literal x{} is {} after set_pos_weight(.., 0.25)", order, var, got);
+        }
+    }
+}
+
+#[test] fn w__sdd__gradient_equals_the_truth_table_derivative() {
+    for order in orders() {
+        let mut mgr = fresh(order);
+        let fam = family(&mut mgr);
+        for (id, t, name) in fam.iter().step_by(3) {
+            let before: Vec<(f64, f64)> = (0..N).map(|v| (mgr.pos_weight()[v as usize], mgr.neg_weight()[v as usize])).collect();
+            let grads = shared::diff_sdd::wmc_gradient(&mut mgr, *id);
+            for var in 0..N {
+                let want = table_gradient_now(&mgr, *t, var);
+                let got = grads.get(&var).copied().unwrap_or(0.0);
+                assert!((got - want).abs() < 1e-9, "order {:?}: d wmc({}) / d p(x{}) reported {}, the truth-table derivative is {}", order, name, var, got, want);
+            }
+            let after: Vec<(f64, f64)> = (0..N).map(|v| (mgr.pos_weight()[v as usize], mgr.neg_weight()[v as usize])).collect();
+            assert!(before == after, "order {:?}: wmc_gradient changed the weights: {:?} -> {:?}", order, before, after);
+            let w = mgr.wmc(*id);
+            assert!((w - table_wmc_now(&mgr, *t)).abs() < 1e-9, "order {:?}: wmc({}) after wmc_gradient is {}, expected {}", order, name, w, table_wmc_now(&mgr, *t));
+        }
+    }
+}
